@@ -255,6 +255,14 @@ func TestC16(t *testing.T) {
 			shared = genOptions(t, rec)
 			genExtraOptions(t, &shared, false)
 		}
+		// heavy streams: batches of 9,000-17,000 items with 4 or 8 string
+		// attributes each (tens of thousands of rows in the attribute
+		// accumulators) between small ones, on 2-3 concurrent streams
+		// (thorough tier only: under the race detector such a case takes minutes)
+		heavy := g.Crowd == 0 && thorough() && pct(t, "heavy", 2)
+		if heavy {
+			n = rapid.IntRange(2, 3).Draw(t, "heavystreams")
+		}
 		for i := 0; i < n; i++ {
 			o := shared
 			if !sameOpts {
@@ -266,7 +274,11 @@ func TestC16(t *testing.T) {
 				// With*LimitDictIndex capacities, set through a custom Option
 				o.Dict = "custom:" + rapid.SampledFrom([]string{"300", "1000", "10", "70000", "1", "255", "256"}).Draw(t, "customn")
 			}
-			c, _ := genOptionHistory(t, historyPlan{MinBatches: minb, MaxBatches: 5, Interleave: true, Knobs: gen.InDomain()})
+			plan := historyPlan{MinBatches: minb, MaxBatches: 5, Interleave: true, Knobs: gen.InDomain()}
+			if heavy {
+				plan = historyPlan{MinBatches: 3, MaxBatches: 5, FanCross: true, Knobs: gen.InDomain()}
+			}
+			c, _ := genOptionHistory(t, plan)
 			c.Options = o
 			g.Streams = append(g.Streams, *c)
 			shapes = append(shapes, fmt.Sprintf("%s/%d", o.String(), len(c.Batches)))
@@ -276,6 +288,10 @@ func TestC16(t *testing.T) {
 		labels := []string{fmt.Sprintf("streams=%d", n)}
 		if sameOpts {
 			labels = append(labels, "same_options_all_streams")
+		}
+		if heavy {
+			labels = append(labels, "heavy_streams_with_large_attribute_tables")
+			shapes = append(shapes, "heavy")
 		}
 		if g.Crowd > 0 {
 			labels = append(labels, "crowd_of_short_lived_neighbours", fmt.Sprintf("crowd=%d", g.Crowd))
